@@ -4,6 +4,8 @@
 //
 // Case grammar (see lean/Drivers/C15.lean):
 //
+//	(<format> may be written <format>~<f1>+<f2>…: the SAME ScanResult value was exported to f1, f2, … before, in that order; the reply
+//	 carries mut=<0|1>: 1 = the scan result after the exports differs from the deep copy taken before them)
 //	sbom <stream> <format> <n> { <name> <version> <locations> <cpes> <hasPurl> <type> <ns> <pname> <pversion> <quals> <subpath>
 //	                             <raw> <norm> <normName> <normVersion> }
 //
@@ -98,6 +100,8 @@ type pk struct {
 
 type tcase struct {
 	stream, format string
+	// formats the SAME ScanResult value was exported to before this one, in order (binary/cli converts one result once per -o flag)
+	prefix []string
 	pkgs           []pk
 }
 
@@ -256,7 +260,11 @@ func must(err error) {
 
 func (c tcase) line() string {
 	var sb strings.Builder
-	fmt.Fprintf(&sb, "sbom %s %s %d", c.stream, c.format, len(c.pkgs))
+	ftok := c.format
+	if len(c.prefix) > 0 {
+		ftok += "~" + strings.Join(c.prefix, "+") // <format>~<earlier export>+<earlier export>…
+	}
+	fmt.Fprintf(&sb, "sbom %s %s %d", c.stream, ftok, len(c.pkgs))
 	for _, p := range c.pkgs {
 		cp := "-"
 		if p.cpes != nil {
@@ -305,6 +313,12 @@ func parseCase(l string) tcase {
 	n, err := strconv.Atoi(t[3])
 	must(err)
 	c := tcase{stream: t[1], format: t[2]}
+	if f, pre, ok := strings.Cut(t[2], "~"); ok {
+		c.format = f
+		if pre != "" {
+			c.prefix = strings.Split(pre, "+")
+		}
+	}
 	w := 19 // tokens per package; lines recorded before the normal form's components were added have 15
 	if len(t) == 4+15*n && n > 0 {
 		w = 15
@@ -381,6 +395,64 @@ func debugf(format string, a ...any) {
 	}
 }
 
+// pkgImage is a deep copy of what an export may read of one package.
+type pkgImage struct {
+	ptr                 *extractor.Package
+	name, version, purl string
+	locs, cpes          []string
+}
+
+func imageOf(pkgs []*extractor.Package) []pkgImage {
+	out := make([]pkgImage, len(pkgs))
+	for i, p := range pkgs {
+		im := pkgImage{ptr: p}
+		if p != nil {
+			im.name, im.version = p.Name, p.Version
+			im.locs = append([]string{}, p.Locations...)
+			if u := (pex{}).ToPURL(p); u != nil {
+				im.purl = u.String()
+			}
+			switch m := p.Metadata.(type) {
+			case *spdxe.Metadata:
+				im.cpes = append([]string{}, m.CPEs...)
+			case *cdxe.Metadata:
+				im.cpes = append([]string{}, m.CPEs...)
+			}
+		}
+		out[i] = im
+	}
+	return out
+}
+
+func sameImage(a, b []pkgImage) bool {
+	if len(a) != len(b) {
+		return false
+	}
+	for i := range a {
+		if a[i].ptr != b[i].ptr || a[i].name != b[i].name || a[i].version != b[i].version || a[i].purl != b[i].purl ||
+			strings.Join(a[i].locs, "\x00") != strings.Join(b[i].locs, "\x00") || strings.Join(a[i].cpes, "\x00") != strings.Join(b[i].cpes, "\x00") {
+			return false
+		}
+	}
+	return true
+}
+
+// export writes res in the given format into dir and returns the file's path.
+func export(res *scalibr.ScanResult, dir, format string) (string, error) {
+	fi, ok := formatInfo[format]
+	if !ok {
+		panic("unknown format " + format)
+	}
+	p := filepath.Join(dir, fi.file)
+	if fi.isSpdx {
+		return p, spdx.Write23(converter.ToSPDX23(res, converter.SPDXConfig{}), p, format)
+	}
+	return p, cdx.Write(converter.ToCDX(res, converter.CDXConfig{}), p, format)
+}
+
+// run exports ONE ScanResult value first to the formats of c.prefix (as `scalibr -o a=… -o b=…` does: one result, one conversion per
+// flag, in order), then to c.format, and scans the last file back. mut=1: the scan result after the exports is not the deep copy taken
+// before them (same packages in the same order with the same fields) — exporting must not modify what it exports.
 func run(tmp string, c tcase) string {
 	return hx.Guard(func() string {
 		fi, ok := formatInfo[c.format]
@@ -391,15 +463,19 @@ func run(tmp string, c tcase) string {
 		must(err)
 		defer os.RemoveAll(dir)
 		res := &scalibr.ScanResult{Inventory: inventory.Inventory{Packages: scalibrPackages(c)}}
-		p := filepath.Join(dir, fi.file)
-		if fi.isSpdx {
-			err = spdx.Write23(converter.ToSPDX23(res, converter.SPDXConfig{}), p, c.format)
-		} else {
-			err = cdx.Write(converter.ToCDX(res, converter.CDXConfig{}), p, c.format)
+		before := imageOf(res.Inventory.Packages)
+		for i, pf := range c.prefix {
+			pdir := filepath.Join(dir, fmt.Sprintf("pre%d", i))
+			must(os.MkdirAll(pdir, 0o755))
+			if _, err := export(res, pdir, pf); err != nil {
+				debugf("write (earlier export) %s: %v", pf, err)
+			}
 		}
+		p, err := export(res, dir, c.format)
+		mut := hx.B(!sameImage(before, imageOf(res.Inventory.Packages)))
 		if err != nil {
 			debugf("write %s: %v", c.format, err)
-			return "purls=- extra=0 st=write-err"
+			return "purls=- extra=0 st=write-err mut=" + mut
 		}
 		if os.Getenv("C15_DUMP") != "" { // debugging aid: the written file goes to stderr
 			b, _ := os.ReadFile(p)
@@ -412,7 +488,7 @@ func run(tmp string, c tcase) string {
 		info, err := os.Stat(p)
 		must(err)
 		if !ex.FileRequired(simplefileapi.New(fi.file, info)) {
-			return "purls=- extra=0 st=not-required"
+			return "purls=- extra=0 st=not-required mut=" + mut
 		}
 		fh, err := os.Open(p)
 		must(err)
@@ -420,7 +496,7 @@ func run(tmp string, c tcase) string {
 		inv, err := ex.Extract(context.Background(), &filesystem.ScanInput{FS: scalibrfs.DirFS(dir), Path: fi.file, Root: dir, Info: info, Reader: fh})
 		if err != nil {
 			debugf("read %s: %v", c.format, err)
-			return "purls=- extra=0 st=read-err"
+			return "purls=- extra=0 st=read-err mut=" + mut
 		}
 		var got []string
 		extra := 0
@@ -432,7 +508,7 @@ func run(tmp string, c tcase) string {
 			}
 		}
 		sort.Strings(got)
-		return fmt.Sprintf("purls=%s extra=%d st=ok", hx.Join(got, ","), extra)
+		return fmt.Sprintf("purls=%s extra=%d st=ok mut=%s", hx.Join(got, ","), extra, mut)
 	})
 }
 
@@ -822,17 +898,38 @@ func main() {
 		}
 		return
 	}
-	for _, inv := range fixedInventories() {
-		for _, f := range formats {
-			emit(tcase{stream: "fixed", format: f, pkgs: inv})
+	// every inventory is exported to all five formats FROM ONE ScanResult value, in a generated order: the k-th case of an inventory
+	// carries the k-1 formats exported before it (re-run on replay)
+	r := hx.Rng(o)
+	emitAll := func(stream string, inv []pk) {
+		order := append([]string{}, formats...)
+		r.Shuffle(len(order), func(i, j int) { order[i], order[j] = order[j], order[i] })
+		for k, f := range order {
+			emit(tcase{stream: stream, format: f, prefix: append([]string{}, order[:k]...), pkgs: inv})
 		}
+	}
+	// a package ToSPDX23 skips (no purl / no version / no name) in FRONT of exportable ones, and behind them
+	mkp := func(name, ver string, hasPurl bool) pk {
+		p := pk{name: name, version: ver, locs: []string{"f"}, hasPurl: hasPurl}
+		if hasPurl {
+			p.typ, p.pname, p.pversion = "npm", name, ver
+		}
+		return p
+	}
+	for _, inv := range [][]pk{
+		{mkp("a", "1", true), mkp("nopurl", "1", false), mkp("c", "3", true), mkp("d", "4", true)},
+		{mkp("nopurl", "1", false), mkp("b", "2", true)},
+		{mkp("a", "1", true), mkp("nover", "", true), mkp("c", "3", true)},
+		{mkp("x", "1", false), mkp("y", "", true), mkp("z", "9", true), mkp("w", "", true), mkp("v", "5", true)},
+	} {
+		emitAll("fixed", inv)
+	}
+	for _, inv := range fixedInventories() {
+		emitAll("fixed", inv)
 	}
 	for _, inv := range matrixInventories() {
-		for _, f := range formats {
-			emit(tcase{stream: "matrix", format: f, pkgs: inv})
-		}
+		emitAll("matrix", inv)
 	}
-	r := hx.Rng(o)
 	for i := 0; i < o.N; i++ {
 		stream := "valid"
 		switch x := r.Intn(20); {
@@ -847,9 +944,6 @@ func main() {
 		default:
 			stream = "malformed"
 		}
-		inv := gen{r, stream}.inventory()
-		for _, f := range formats {
-			emit(tcase{stream: stream, format: f, pkgs: inv})
-		}
+		emitAll(stream, gen{r, stream}.inventory())
 	}
 }
